@@ -110,8 +110,8 @@ static int _decode
 		dec->data.len = mlen;
 		dec->data.msg = -1;
 	}
-	/* align offset for target data */
-	if (!mlen) {
+	/* align offset for target data of new message */
+	if (!mlen && !code) {
 		const uint8_t *addr;
 		size_t curr, align = 0x10;
 		
